@@ -1,6 +1,6 @@
 (* The program state: ownership invariant, and every operation refines the spec. *)
 From Coq Require Import ZArith List Bool Arith Lia Permutation.
-From Life Require Import LifeSpec LifeModel LifeBase LifeLoops LifeArray LifeNode LifeSpecProofs.
+From Life Require Import LifeSpec LifeModel LifeBase LifeLoops LifeArray LifeNode LifeSpecProofs LifeHint LifeSort.
 Import ListNotations.
 
 Definition cids (c : cont) : list id := match c with CA a => aelems a | CN n => nids n end.
@@ -138,9 +138,6 @@ Proof.
 Qed.
 
 (* ---- arguments ---- *)
-Definition rlive (w : world) (r : rarg) : Prop := match r with RRef i | RCopy i => In i (dom (heap w)) | RTmp _ => True end.
-Definition rval (w : world) (r : rarg) : Z := match r with RRef i | RCopy i => val w i | RTmp z => z end.
-
 Lemma in_all_ids st y c i : Inv st -> getv (svars st) y = Some c -> In i (cids c) -> In i (dom (heap (sw st))).
 Proof.
   intros IV G I. destruct (inv_holds st y (Some c) IV (getv_nth _ _ _ G)) as [H _].
@@ -850,6 +847,23 @@ Proof.
       - pose proof (inv_holds2 st x y _ _ IV NE (getv_nth _ _ _ Gx) (getv_nth _ _ _ Gy)) as H2. cbn [vids cids] in H2.
         apply (nc_add_all_other n (addall_p (ckind n) p) m (sw st) W H2 Hbx (eq_sym KE)). }
     destruct R as (c' & w' & E & T & K & A).
+    (* Map::insert(const Map&) goes through the hinted insert: the same computation *)
+    assert (EQ : (match ckind n with
+                  | KMap => nc_add_all_map n (if Nat.eqb x y then None else Some m)
+                  | _ => nc_add_all n (addall_p (ckind n) p) (if Nat.eqb x y then None else Some m)
+                  end) (sw st) = nc_add_all n (addall_p (ckind n) p) (if Nat.eqb x y then None else Some m) (sw st)).
+    { destruct (ckind n) eqn:Kn; try reflexivity.
+      pose proof (swf_get st x (CN n) SW Gx) as KO. cbn [abs_cont fst snd] in KO. rewrite Kn in KO.
+      unfold nc_add_all_map, nc_add_all. cbn [addall_p].
+      destruct (Nat.eqb_spec x y) as [->|NE].
+      - rewrite Kn. apply nc_insert_all_map_self; auto; [unfold nabs; rewrite Kn; exact KO | intros pk Q; discriminate].
+      - pose proof (inv_holds2 st x y _ _ IV NE (getv_nth _ _ _ Gx) (getv_nth _ _ _ Gy)) as H2. cbn [vids cids] in H2.
+        apply (nc_insert_all_map_other (citems m) n None (sw st) (nids m)); auto.
+        + unfold nabs. rewrite Kn. exact KO.
+        + intros pk Q. discriminate.
+        + intros nd I. unfold nids. split; apply in_or_app; right;
+            (eapply items_ids_in; [exact I|]); [apply node_ids_key | apply node_ids_val]; rewrite <- KE; reflexivity. }
+    rewrite <- EQ in E.
     destruct (put_ok st x (Some (CN n)) (CN c') w' _ IV (getv_nth _ _ _ Gx) (lift_ok CN _ _ _ _ E) T) as (st' & E' & IV' & A').
     { cbn [vwf]. rewrite K. exact WFx. }
     exists true, st'. split; [exact E'|]. split; [exact IV'|]. rewrite A'. cbn [abs_cont].
@@ -939,6 +953,236 @@ Proof.
   rewrite sget_abs, G in R. cbn [option_map] in R. rewrite AC, EL, EK in R. exact R.
 Qed.
 
+
+(* ---------------------------------------------------------------------------------------- *)
+(* third round                                                                                *)
+(* ---------------------------------------------------------------------------------------- *)
+(* ---- ONewCap ---- *)
+Lemma step_newcap st x k n : Inv st -> step_good st (ONewCap x k n).
+Proof.
+  intros IV. unfold step_good. cbn [step spec_step]. rewrite sdead_abs.
+  destruct (isdead (svars st) x && has_capctor k) eqn:D; [|exists false, st; auto].
+  apply andb_true_iff in D. destruct D as [D CC].
+  pose proof (isdead_nth _ _ D) as N. pose proof (inv_wf _ IV) as W.
+  destruct (is_array k) eqn:A.
+  - apply is_array_eq in A. subst k.
+    destruct (put_ok st x None (CA (arr_new_cap n)) (sw st) (ret (CA (arr_new_cap n))) IV N eq_refl) as (st' & E & IV' & A').
+    { cbn [vids vbks cids cbks aelems arr_new_cap ablks astore]. apply trans_refl. auto. }
+    { cbn [vwf]. apply awf_new_cap. }
+    exists true, st'. split; [exact E|]. split; [exact IV'|]. rewrite A'. reflexivity.
+  - destruct (nc_new_ok k (sw st) W) as (c & w' & E0 & T0 & K0 & I0 & B0).
+    destruct (put_ok st x None (CN c) w' (lift CN (nc_new k)) IV N (lift_ok CN _ _ _ _ E0)) as (st' & E & IV' & A').
+    { cbn [vids vbks cids cbks]. exact T0. }
+    { cbn [vwf]. rewrite K0. exact A. }
+    exists true, st'. split; [exact E|]. split; [exact IV'|].
+    rewrite A'. cbn [abs_cont]. unfold nabs. rewrite K0, I0. reflexivity.
+Qed.
+
+(* ---- OFind: the caller's temporary comes and goes, nothing else happens ---- *)
+Lemma with_arg_ro {C} r (body : id -> M C) (c : C) w : wfw w -> rlive w r ->
+  (forall w1 i, wfw w1 -> (forall F, holds w F -> holds w1 F) -> In i (dom (heap w1)) -> body i w1 = Ok (c, w1)) ->
+  exists w3, with_arg r body w = Ok (c, w3) /\ trans w w3 [] [] [] [].
+Proof.
+  intros W L BD. destruct r as [z|i|i]; cbn [with_arg rlive] in *.
+  - destruct (mk_val_ok w z W) as (E1 & T1 & V1). run E1.
+    set (t := nxt w) in *. set (w1 := w_mk w z (EVal t z)) in *.
+    rewrite (bind_ok _ _ _ _ _ (BD w1 t ltac:(twf T1) (fun F HF => holds_keep _ _ _ _ _ _ F T1 HF) (mk_live w z _))).
+    destruct (destroy_ok w1 t ltac:(twf T1) (mk_live w z _)) as [E3 T3]. run E3.
+    eexists. split; [reflexivity|].
+    eapply (trans_seq [] [] [] [] _ _ _ _ _ _ _ _ _ _ _ _ _ _ _ T1 T3); msolve.
+  - exists w. split; [apply BD; auto | apply trans_refl; auto].
+  - destruct (mk_copy_ok w i W L) as (E1 & T1 & V1). run E1.
+    set (t := nxt w) in *. set (w1 := w_mk w (val w i) (ECopy t i)) in *.
+    rewrite (bind_ok _ _ _ _ _ (BD w1 t ltac:(twf T1) (fun F HF => holds_keep _ _ _ _ _ _ F T1 HF) (mk_live w (val w i) _))).
+    destruct (destroy_ok w1 t ltac:(twf T1) (mk_live w (val w i) _)) as [E3 T3]. run E3.
+    eexists. split; [reflexivity|].
+    eapply (trans_seq [] [] [] [] _ _ _ _ _ _ _ _ _ _ _ _ _ _ _ T1 T3); msolve.
+Qed.
+
+Lemma readonly_good st x c w3 (m : M cont) o : Inv st -> getv (svars st) x = Some c ->
+  m (sw st) = Ok (c, w3) -> trans (sw st) w3 [] [] [] [] -> spec_step (abs st) o = (true, abs st) ->
+  exists st', put st x m = Ok (true, st') /\ Inv st' /\ spec_step (abs st) o = (true, abs st').
+Proof.
+  intros IV G E T S.
+  destruct (inv_get st x c IV G) as (H & Hb & WF).
+  destruct (put_ok st x (Some c) c w3 m IV (getv_nth _ _ _ G) E) as (st' & E' & IV' & A'); auto.
+  { cbn [vids vbks]. eapply trans_perm; [apply (trans_frame _ _ _ _ _ _ (cids c) (cbks c) T) | | | |]; msolve. }
+  exists st'. split; [exact E'|]. split; [exact IV'|]. rewrite S. f_equal. rewrite A'.
+  symmetry. apply sset_same. rewrite (abs_nth st x c G). f_equal. f_equal.
+  symmetry. apply abs_cont_ext. intros i I. eapply trans_val; [exact T | eapply holds_in; eauto | tauto].
+Qed.
+
+Lemma step_find st x ka : Inv st -> step_good st (OFind x ka).
+Proof.
+  intros IV. unfold step_good. cbn [step spec_step]. rewrite sget_abs.
+  destruct (getv (svars st) x) as [c|] eqn:G; cbn [option_map]; [|exists false, st; auto].
+  destruct (inv_get st x c IV G) as (H & Hb & WF). pose proof (inv_wf _ IV) as W.
+  pose proof (marg_key_spec st ka IV) as MK. pose proof (marg_val_spec st ka IV) as MV.
+  destruct c as [a|n]; cbn [cids cbks vwf abs_cont] in *.
+  - cbn [can_find has_key].
+    destruct (marg_val (svars st) ka) as [r|]; [destruct MV as [MV L]|]; rewrite MV; [|exists false, st; auto].
+    destruct (with_arg_ro r (arr_find a) a (sw st) W L) as (w3 & E & T).
+    { intros w1 i W1 HK I1. apply arr_find_ok; auto. }
+    destruct (readonly_good st x (CA a) w3 (lift CA (with_arg r (arr_find a))) (OFind x ka) IV G (lift_ok CA _ _ _ _ E) T)
+      as (st' & E' & IV' & S').
+    { cbn [spec_step]. rewrite sget_abs, G. cbn [option_map abs_cont can_find has_key]. rewrite MV. reflexivity. }
+    exists true, st'. split; [exact E'|]. split; [exact IV'|].
+    cbn [spec_step] in S'. rewrite sget_abs, G in S'. cbn [option_map abs_cont can_find has_key] in S'. rewrite MV in S'. exact S'.
+  - destruct (can_find (ckind n)) eqn:CF; [|exists false, st; auto].
+    assert (KV : has_key (ckind n) || has_val (ckind n) = true) by (destruct (ckind n); cbn in *; congruence).
+    assert (Ar : match (if has_key (ckind n) then marg_key (svars st) ka else marg_val (svars st) ka) with
+                 | Some r => (if has_key (ckind n) then sarg_key (abs st) ka else sarg_val (abs st) ka) = Some (rval (sw st) r)
+                             /\ rlive (sw st) r
+                 | None => (if has_key (ckind n) then sarg_key (abs st) ka else sarg_val (abs st) ka) = None
+                 end).
+    { destruct (has_key (ckind n)); auto. }
+    destruct (if has_key (ckind n) then marg_key (svars st) ka else marg_val (svars st) ka) as [r|];
+      [destruct Ar as [Er L]|]; rewrite ?Ar, ?Er; [|exists false, st; auto].
+    destruct (with_arg_ro r (nc_find n) n (sw st) W L) as (w3 & E & T).
+    { intros w1 i W1 HK I1. apply nc_find_ok; auto. }
+    destruct (readonly_good st x (CN n) w3 (lift CN (with_arg r (nc_find n))) (OFind x ka) IV G (lift_ok CN _ _ _ _ E) T)
+      as (st' & E' & IV' & S').
+    { cbn [spec_step]. rewrite sget_abs, G. cbn [option_map abs_cont]. rewrite CF, Er. reflexivity. }
+    exists true, st'. split; [exact E'|]. split; [exact IV'|].
+    cbn [spec_step] in S'. rewrite sget_abs, G in S'. cbn [option_map abs_cont] in S'. rewrite CF, Er in S'. exact S'.
+Qed.
+
+(* ---- OEmplace ---- *)
+Lemma marg_vals_spec st args : Inv st ->
+  match marg_vals (svars st) args with
+  | Some rs => sarg_vals (abs st) args = Some (map (rval (sw st)) rs) /\ Forall (rlive (sw st)) rs
+  | None => sarg_vals (abs st) args = None
+  end.
+Proof.
+  intros IV. induction args as [|a r IH]; cbn [marg_vals sarg_vals]; [split; [reflexivity | constructor]|].
+  pose proof (marg_val_spec st a IV) as MV.
+  destruct (marg_val (svars st) a) as [ra|]; [destruct MV as [MV L]|]; rewrite MV; [|reflexivity].
+  destruct (marg_vals (svars st) r) as [rs|]; [destruct IH as [IH F]|]; rewrite IH; [|reflexivity].
+  split; [reflexivity | constructor; assumption].
+Qed.
+
+Lemma can_emplace_eq k : can_emplace k = true -> k = KPoolList.
+Proof. destruct k; cbn; congruence. Qed.
+
+Lemma step_emplace st x args : Inv st -> step_good st (OEmplace x args).
+Proof.
+  intros IV. unfold step_good. cbn [step spec_step]. rewrite sget_abs.
+  destruct (getv (svars st) x) as [c|] eqn:G; cbn [option_map]; [|exists false, st; auto].
+  destruct (inv_get st x c IV G) as (H & Hb & WF). pose proof (inv_wf _ IV) as W.
+  destruct c as [a|n]; cbn [cids cbks vwf abs_cont] in *.
+  - cbn [can_emplace andb]. exists false, st. auto.
+  - destruct (can_emplace (ckind n) && (length args <=? 7)) eqn:CE; [|exists false, st; auto].
+    apply andb_true_iff in CE. destruct CE as [CE _]. apply can_emplace_eq in CE.
+    pose proof (marg_vals_spec st args IV) as MS.
+    destruct (marg_vals (svars st) args) as [rs|]; [destruct MS as [MS F]|]; rewrite MS; [|exists false, st; auto].
+    destruct (nc_emplace_ok n rs (sw st) W H Hb CE F) as (c' & w' & E & T & K & A).
+    destruct (put_ok st x (Some (CN n)) (CN c') w' _ IV (getv_nth _ _ _ G) (lift_ok CN _ _ _ _ E) T) as (st' & E' & IV' & A').
+    { cbn [vwf]. rewrite K. exact WF. }
+    exists true, st'. split; [exact E'|]. split; [exact IV'|]. rewrite A'. cbn [abs_cont].
+    fold (nabs w' c') (nabs (sw st) n). rewrite K, A. reflexivity.
+Qed.
+
+(* ---- OAppendVals ---- *)
+Lemma step_appendvals st x zs : Inv st -> step_good st (OAppendVals x zs).
+Proof.
+  intros IV. unfold step_good. cbn [step spec_step]. rewrite sget_abs.
+  destruct (getv (svars st) x) as [c|] eqn:G; cbn [option_map]; [|exists false, st; auto].
+  destruct (inv_get st x c IV G) as (H & Hb & WF). pose proof (inv_wf _ IV) as W.
+  destruct c as [a|n]; cbn [cids cbks vwf abs_cont is_array] in *.
+  - destruct (arr_append_vals_ok a zs (sw st) W H Hb WF) as (a' & w' & E & T & V & WF').
+    destruct (put_ok st x (Some (CA a)) (CA a') w' _ IV (getv_nth _ _ _ G) (lift_ok CA _ _ _ _ E) T WF') as (st' & E' & IV' & A').
+    exists true, st'. split; [exact E'|]. split; [exact IV'|]. rewrite A'. cbn [abs_cont].
+    fold (aabs w' a') (aabs (sw st) a). rewrite !aabs_avals, V, map_app. reflexivity.
+  - rewrite WF. exists false, st. auto.
+Qed.
+
+(* ---- OInsHint ---- *)
+Lemma with_both_ok n (f : id -> id -> M nc) (G : acont) rk rv w :
+  wfw w -> holds w (nids n) -> holdsb w (nblks n) -> rlive w rk -> rlive w rv ->
+  (forall w2 i j, wfw w2 -> holds w2 (nids n) -> holdsb w2 (nblks n) -> In i (dom (heap w2)) -> In j (dom (heap w2)) ->
+      val w2 i = rval w rk -> val w2 j = rval w rv -> nabs w2 n = nabs w n ->
+      exists c' w4, f i j w2 = Ok (c', w4) /\ trans w2 w4 (nids n) (nids c') (nblks n) (nblks c') /\ ckind c' = ckind n /\
+                    nabs w4 c' = G) ->
+  exists c' w', with_arg rk (fun kr => with_arg rv (fun vr => f kr vr)) w = Ok (c', w') /\
+     trans w w' (nids n) (nids c') (nblks n) (nblks c') /\ ckind c' = ckind n /\ nabs w' c' = G.
+Proof.
+  intros W H Hb Lk Lv BD.
+  destruct (with_arg_ok rk (fun kr => with_arg rv (fun vr => f kr vr)) nids nblks w (nids n) (nblks n)
+              (fun w1 i c w2 => ckind c = ckind n /\ nabs w2 c = G) W H Hb Lk)
+    as (c' & w3 & E & T & w1 & i & S & V & K & P).
+  - intros w1 i c w2 w3 [P1 P2] K. split; auto. rewrite <- P2. apply nabs_ext. exact K.
+  - intros w1 i W1 H1 Hb1 I1 V1 S1.
+    assert (Lv1 : rlive w1 rv).
+    { destruct rv; cbn [rlive] in *; auto; apply S1; exact Lv. }
+    assert (Rv1 : rval w1 rv = rval w rv).
+    { destruct rv; cbn [rval rlive] in *; auto; apply S1; exact Lv. }
+    destruct (with_arg_ok rv (fun vr => f i vr) nids nblks w1 (nids n) (nblks n)
+                (fun w2 j c w4 => ckind c = ckind n /\ nabs w4 c = G) W1 H1 Hb1 Lv1)
+      as (c' & w4 & E & T & w2 & j & S2 & V2 & K & P).
+    + intros w2 j c w4 w5 [P1 P2] K. split; auto. rewrite <- P2. apply nabs_ext. exact K.
+    + intros w2 j W2 H2 Hb2 I2 V2 S2.
+      destruct (BD w2 i j W2 H2 Hb2 (proj2 (S2 i I1)) I2) as (c' & w4 & E & T & K & A).
+      { rewrite <- V1. apply S2. exact I1. }
+      { rewrite V2. exact Rv1. }
+      { rewrite (nabs_same_on w1 w2 n S2 H1). apply (nabs_same_on w w1 n S1 H). }
+      exists c', w4. split; [exact E|]. split; [exact T|]. split; [exact K|]. exact A.
+    + exists c', w4. split; [exact E|]. split; [exact T|]. split; [exact K|]. exact P.
+  - exists c', w3. split; [exact E|]. split; [exact T|]. split; [exact K|]. exact P.
+Qed.
+
+Lemma step_inshint st x p ka va : Inv st -> swf (abs st) -> step_good st (OInsHint x p ka va).
+Proof.
+  intros IV SW. unfold step_good. cbn [step spec_step]. rewrite sget_abs.
+  destruct (getv (svars st) x) as [c|] eqn:G; cbn [option_map]; [|exists false, st; auto].
+  destruct (inv_get st x c IV G) as (H & Hb & WF). pose proof (inv_wf _ IV) as W.
+  pose proof (marg_key_spec st ka IV) as MK. pose proof (marg_val_spec st va IV) as MV.
+  destruct c as [a|n]; cbn [cids cbks vwf abs_cont] in *.
+  - cbn [can_hint sorted]. exists false, st. auto.
+  - unfold can_hint. destruct (sorted (ckind n)) eqn:SO; [|exists false, st; auto].
+    destruct (sorted_fields _ SO) as (HK & HV & _).
+    destruct (marg_key (svars st) ka) as [rk|]; [destruct MK as [MK Lk]|]; rewrite MK; [|exists false, st; auto].
+    destruct (marg_val (svars st) va) as [rv|]; [destruct MV as [MV Lv]|]; rewrite MV; [|exists false, st; auto].
+    pose proof (swf_get st x (CN n) SW G) as KO. cbn [abs_cont fst snd] in KO. fold (nabs (sw st) n) in KO |- *.
+    assert (Ek : map (val (sw st)) (sel_ids (ckind n) (citems n)) = asel (ckind n) (nabs (sw st) n)).
+    { unfold nabs. apply sel_vals. rewrite HK. reflexivity. }
+    assert (Len : length (nabs (sw st) n) = length (citems n)) by (unfold nabs; apply map_length).
+    rewrite Ek, rarg_val_rval, Len.
+    destruct (hint_tie (ckind n) (asel (ckind n) (nabs (sw st) n)) (pos_idx p (length (citems n))) (rval (sw st) rk)) eqn:TIE;
+      [exists false, st; auto|].
+    destruct (with_both_ok n (fun kr vr => nc_insert_hint n p kr vr)
+                (spec_ins (ckind n) (nabs (sw st) n) p (rval (sw st) rk) (rval (sw st) rv)) rk rv (sw st) W H Hb Lk Lv)
+      as (c' & w' & E & T & K & A).
+    { intros w2 i j W2 H2 Hb2 Ii Ij Vi Vj EN.
+      destruct (nc_insert_hint_ok n p i j w2 W2 H2 Hb2 SO Ii Ij) as (c' & w4 & E & T & K & A).
+      - rewrite EN. exact KO.
+      - rewrite EN, Vi. exact TIE.
+      - exists c', w4. split; [exact E|]. split; [exact T|]. split; [exact K|]. rewrite A, EN, Vi, Vj. reflexivity. }
+    destruct (put_ok st x (Some (CN n)) (CN c') w' _ IV (getv_nth _ _ _ G) (lift_ok CN _ _ _ _ E) T) as (st' & E' & IV' & A').
+    { cbn [vwf]. rewrite K. exact WF. }
+    exists true, st'. split; [exact E'|]. split; [exact IV'|]. rewrite A'. cbn [abs_cont].
+    fold (nabs w' c'). rewrite K, A. reflexivity.
+Qed.
+
+(* ---- OSort ---- *)
+Lemma can_sort_eq k : can_sort k = true -> k = KList.
+Proof. destruct k; cbn; congruence. Qed.
+
+Lemma step_sort st x : Inv st -> step_good st (OSort x).
+Proof.
+  intros IV. unfold step_good. cbn [step spec_step]. rewrite sget_abs.
+  destruct (getv (svars st) x) as [c|] eqn:G; cbn [option_map]; [|exists false, st; auto].
+  destruct (inv_get st x c IV G) as (H & Hb & WF). pose proof (inv_wf _ IV) as W.
+  destruct c as [a|n]; cbn [cids cbks vwf abs_cont] in *.
+  - cbn [can_sort]. exists false, st. auto.
+  - destruct (can_sort (ckind n)) eqn:CS; [|exists false, st; auto].
+    pose proof (can_sort_eq _ CS) as K.
+    destruct (nc_sort_ok n (sw st) W H K) as (w' & E & T & A).
+    destruct (put_ok st x (Some (CN n)) (CN n) w' _ IV (getv_nth _ _ _ G) (lift_ok CN _ _ _ _ E) T) as (st' & E' & IV' & A').
+    { cbn [vwf]. exact WF. }
+    exists true, st'. split; [exact E'|]. split; [exact IV'|]. rewrite A'. cbn [abs_cont].
+    fold (nabs w' n) (nabs (sw st) n). rewrite A. reflexivity.
+Qed.
+
 (* ---------------------------------------------------------------------------------------- *)
 (* all operations                                                                             *)
 (* ---------------------------------------------------------------------------------------- *)
@@ -960,4 +1204,10 @@ Proof.
   - apply step_resize; auto.
   - apply step_appendrange; auto.
   - apply step_remvia; auto.
+  - apply step_newcap; auto.
+  - apply step_find; auto.
+  - apply step_emplace; auto.
+  - apply step_appendvals; auto.
+  - apply step_inshint; auto.
+  - apply step_sort; auto.
 Qed.
